@@ -219,8 +219,8 @@ class Interp(object):
         if isinstance(e, ast.Name):
             if e.id in env:
                 return env[e.id]
-            if e.id in self.intr and not callable(self.intr[e.id]):
-                return self.intr[e.id]
+            if e.id in self.intr:
+                return self.intr[e.id]        # constants, and classes / functions the rule supplied (used as values)
             raise Refuse(e, "free name")
         if isinstance(e, ast.Attribute):
             d = unparse(e)
